@@ -74,7 +74,7 @@ OpenedUpd(ok, t) ==
   /\ preFail' = IF ok THEN {} ELSE (IF failed THEN preFail ELSE InFlight)
   /\ errOnly' = IF ok THEN {} ELSE (IF failed THEN errOnly ELSE InFlight)
   /\ signalled' = IF ok THEN FALSE ELSE signalled
-  /\ ownerClosed' = IF ok THEN FALSE ELSE ownerClosed
+  /\ ownerClosed' = ownerClosed      \* the driver never re-opens a transport its owner closed
   /\ UNCHANGED <<everFaulted, silentSince, beforeSilence>>
   /\ UNCHANGED <<reqs, delivered, unanswered, recent, stray, held, peak, maxTag, written, nreq>>
 
